@@ -35,7 +35,7 @@ theorem map_unfold (c : Ctx) (gs : Fields) :
            | none => unmodelled
            | some name =>
              (mapItems (fun item => evalAt (c.bind name item) "in" gs) items).bind
-               (fun r => .ok (r.map .arr))
+               (fun r => .ok (some (.arr r)))
          | some _ => .error .opFail)) := by
   have h1 : classify "$map" = .array := by decide
   have h2 := mode_shaped_doc "$map" gs (by simp)
@@ -62,11 +62,7 @@ theorem map_case (c : Ctx) (root : Val) (env : Env) (hr : EnvRel c root env) (gs
         rAt root env "input" gs ++
         (match asVar gs, sAt root env "input" gs with
          | .ok name, .ok (some (.arr items)) =>
-           (items.map (fun item =>
-              rAt root ((name, some item) :: env) "in" gs ++
-              (match sAt root ((name, some item) :: env) "in" gs with
-               | .ok none => ["mapmissing"]
-               | _ => []))).flatten
+           (items.map (fun item => rAt root ((name, some item) :: env) "in" gs)).flatten
          | _, _ => []) = [])
     (res : Option Val)
     (hres : (if (!(dhas "input" gs && dhas "in" gs) ||
@@ -112,21 +108,18 @@ theorem map_case (c : Ctx) (root : Val) (env : Env) (hr : EnvRel c root env) (gs
           | arr items =>
             simp only at hres h3 ⊢
             have hitems : ∀ x ∈ items, ∃ y,
-                sAt root ((name, some x) :: env) "in" gs = .ok (some y) ∧
-                evalAt (c.bind name x) "in" gs = .ok (some y) := by
+                sAt root ((name, some x) :: env) "in" gs = .ok y ∧
+                evalAt (c.bind name x) "in" gs = .ok y := by
               intro x hx
-              have := flatten_nil _ h3 _ (List.mem_map.mpr ⟨x, hx, rfl⟩)
-              obtain ⟨r1, r2⟩ := append_nil2 this
+              have r1 := flatten_nil _ h3 _ (List.mem_map.mpr ⟨x, hx, rfl⟩)
               obtain ⟨ry, hry⟩ := at_ok root _ "in" gs vb hvb r1
               have e2 := at_agree (c.bind name x) root _ (hr.bind name x) "in" gs vb hvb hsub r1
-              cases ry with
-              | none => simp [hry] at r2
-              | some y => exact ⟨y, hry, by rw [e2, hry]⟩
+              exact ⟨ry, hry, by rw [e2, hry]⟩
             obtain ⟨ys, rs, m1, m2, m3⟩ := map_loop
               (fun item => evalAt (c.bind name item) "in" gs)
               (fun item => sAt root ((name, some item) :: env) "in" gs) items hitems
             simp only [m2, pure, Except.pure] at hres
-            simp only [m1, Except.bind, Option.map_some]
+            simp only [m1, Except.bind]
             rw [← hres, m3]
           | _ => all_goals (simp at hres)
 
